@@ -110,10 +110,15 @@ fn work(case: &Value) -> Value {
                     rendered = false;
                 }
             }
-            let scanner = c.finalize();
+            let mut scanner = c.finalize();
             nrules = scanner.rules().count();
+            // the scan is only there to see that the scanner is usable: a condition such as
+            // `for any i in (0..uint32(0)) : (false)` may legitimately loop for minutes
+            scanner.set_scan_params(
+                boreal::scanner::ScanParams::default().timeout_duration(Some(Duration::from_secs(2))),
+            );
             let scan = match scanner.scan_mem(b"abcdefghijklmnopqrstuvwxyz0123456789 \x00\x01\xff GET /index.html") {
-                Ok(_) => "ok".to_string(),
+                Ok(_) | Err((boreal::scanner::ScanError::Timeout, _)) => "ok".to_string(),
                 Err((e, _)) => format!("err:{e:?}"),
             };
             ("ok".to_string(), scan)
